@@ -2,6 +2,7 @@ package sx
 
 import (
 	"fmt"
+	"time"
 	"go/types"
 	"math"
 	"strings"
@@ -193,6 +194,7 @@ func init() {
 				x.cfg.Dom = DomFPX
 			case "RUF":
 				x.cfg.Dom = DomRUF
+				x.cfg.FeasTimeout = 2 * time.Second // nonlinear path conditions: unknown = keep the path
 			default:
 				panic(x.fault("unknown domain"))
 			}
